@@ -43,6 +43,7 @@ func main() {
 	replay := fs.String("replay", "", "replay file")
 	oneshot := fs.String("oneshot", "", "internal: run one operation in a fresh process and print its observation")
 	deadline := fs.Duration("deadline", 0, "internal deadline of the exploration (0 = tier default)")
+	stopAfter := fs.Int64("stop-after", 0, "internal: stop the shard after this many executed cases")
 	fs.Parse(os.Args[2:])
 	if v := os.Getenv("VERIF_TIER"); v != "" && !flagSet(fs, "tier") {
 		*tier = v
@@ -61,7 +62,7 @@ func main() {
 		os.Exit(doReplay(ck, *replay))
 	}
 	if *shard >= 0 {
-		runShard(ck, *tier, *shard, *nshards, *out, *deadline)
+		runShard(ck, *tier, *shard, *nshards, *out, *deadline, *stopAfter)
 		return
 	}
 	os.Exit(parent(ck, *tier, *deadline))
@@ -87,8 +88,8 @@ func tierDeadline(tier string, d time.Duration) time.Duration {
 	return 20 * time.Minute
 }
 
-func runShard(ck *checks.Check, tier string, shard, n int, out string, dl time.Duration) {
-	ctx := &core.Ctx{ID: ck.ID, Tier: tier, Shard: shard, NShards: n, R: core.NewReport()}
+func runShard(ck *checks.Check, tier string, shard, n int, out string, dl time.Duration, stopAfter int64) {
+	ctx := &core.Ctx{ID: ck.ID, Tier: tier, Shard: shard, NShards: n, R: core.NewReport(), StopAfter: stopAfter}
 	ctx.Deadline = time.Now().Add(tierDeadline(tier, dl))
 	var once sync.Once
 	flush := func() {
@@ -100,7 +101,16 @@ func runShard(ck *checks.Check, tier string, shard, n int, out string, dl time.D
 		})
 	}
 	ctx.Watch(checks.HangLimit, flush)
-	ck.Body(ctx)
+	func() {
+		defer func() {
+			if r := recover(); r != nil {
+				if _, stop := r.(core.StopSignal); !stop {
+					panic(r)
+				}
+			}
+		}()
+		ck.Body(ctx)
+	}()
 	flush()
 }
 
@@ -219,13 +229,15 @@ func parent(ck *checks.Check, tier string, dl time.Duration) int {
 	os.RemoveAll(replayDir)
 	nviol, unconfirmed, examined := 0, 0, 0
 	seenKey := map[string]bool{}
+	tries := map[string]int{}
 	for _, f := range mine {
-		if seenKey[f.Key] {
+		if seenKey[f.Key] || tries[f.Key] >= 4 {
 			continue
 		}
-		seenKey[f.Key] = true
+		tries[f.Key]++ // the same case may have been recorded several times with different histories
 		if what, ok := knownKeys[f.Key]; ok {
 			fmt.Printf("KNOWN-FINDING: property=%s %s: %s\n", ck.ID, f.Key, what)
+			seenKey[f.Key] = true
 			continue
 		}
 		// re-execute 5 times, each in a fresh process, before believing it; a finding that only
@@ -240,11 +252,17 @@ func parent(ck *checks.Check, tier string, dl time.Duration) int {
 		case reproduces(self, ck, &f, []core.Case{f.Case, f.Case, f.Case}, 5) == 5:
 			mode = "history-dependent: reproduces when the same call is repeated in one process (replay repeats it four times)"
 			f.History, f.NeedHistory = []core.Case{f.Case, f.Case, f.Case}, true
+		case !ck.Serial && f.Seq > 0 && reproducesByPrefix(self, ck, &f):
+			mode = fmt.Sprintf("history-dependent: reproduces when the %d calls that shard %d/%d executed before it are executed first (the replay re-executes that call sequence)", f.Seq-1, f.Shard, f.NShards)
+			f.History, f.NeedPrefix = nil, true
 		default:
 			// not deterministic: the same call in a fresh process sometimes shows it
 			k := reproduces(self, ck, &f, nil, 20)
 			if k == 0 {
 				unconfirmed++
+				if d := os.Getenv("VERIF_KEEP_UNCONFIRMED"); d != "" {
+					core.WriteJSON(filepath.Join(d, fmt.Sprintf("unconfirmed%03d.json", unconfirmed)), f)
+				}
 				if unconfirmed <= 5 {
 					fmt.Fprintf(os.Stderr, "unconfirmed finding (did not reproduce in 20 fresh processes, nor after its %d preceding calls, nor repeated): %s: %s\n", len(f.History), f.Key, firstLines(f.Msg, 2))
 				}
@@ -259,6 +277,7 @@ func parent(ck *checks.Check, tier string, dl time.Duration) int {
 		if mode != "" {
 			f.Msg += "\n  " + mode
 		}
+		seenKey[f.Key] = true
 		nviol++
 		if nviol > 12 {
 			break
@@ -364,6 +383,37 @@ func reproduces(self string, ck *checks.Check, f *core.Finding, history []core.C
 	return hits
 }
 
+// reproducesByPrefix re-executes, in a fresh process, the deterministic call sequence of the
+// finding's shard up to and including the finding's position and looks for the same finding.
+func reproducesByPrefix(self string, ck *checks.Check, f *core.Finding) bool {
+	tmp, err := os.CreateTemp(filepath.Dir(self), "prefix*.json")
+	if err != nil {
+		return false
+	}
+	tmp.Close()
+	defer os.Remove(tmp.Name())
+	cmd := exec.Command(self, ck.ID, "--tier", f.Tier, "--shard", strconv.Itoa(f.Shard), "--nshards", strconv.Itoa(f.NShards),
+		"--stop-after", strconv.FormatInt(f.Seq, 10), "--out", tmp.Name())
+	cmd.Env = append(os.Environ(), "GOMAXPROCS="+gomaxprocs(ck, f.NShards))
+	if err := cmd.Run(); err != nil {
+		return false
+	}
+	b, err := os.ReadFile(tmp.Name())
+	if err != nil {
+		return false
+	}
+	rep := core.NewReport()
+	if json.Unmarshal(b, rep) != nil {
+		return false
+	}
+	for _, g := range rep.Findings {
+		if g.Prop == f.Prop && g.Key == f.Key && g.Seq == f.Seq {
+			return true
+		}
+	}
+	return false
+}
+
 func doReplay(ck *checks.Check, path string) int {
 	b, err := os.ReadFile(path)
 	if err != nil {
@@ -375,13 +425,36 @@ func doReplay(ck *checks.Check, path string) int {
 		fmt.Fprintln(os.Stderr, err)
 		return 2
 	}
+	if f.NeedPrefix {
+		// re-execute the call sequence of the finding's shard up to its position
+		ctx := &core.Ctx{ID: ck.ID, Tier: f.Tier, Shard: f.Shard, NShards: f.NShards, R: core.NewReport(), StopAfter: f.Seq}
+		func() {
+			defer func() {
+				if r := recover(); r != nil {
+					if _, stop := r.(core.StopSignal); !stop {
+						panic(r)
+					}
+				}
+			}()
+			ck.Body(ctx)
+		}()
+		for _, g := range ctx.R.Findings {
+			if g.Prop == ck.ID && g.Key == f.Key && g.Seq == f.Seq {
+				fmt.Printf("VIOLATION property=%s replay=%s\n  case: %s (call %d of shard %d/%d)\n  what: %s\n", ck.ID, path, g.Key, g.Seq, f.Shard, f.NShards, firstLines(g.Msg, 12))
+				return 1
+			}
+		}
+		fmt.Printf("replay of %s after its %d preceding calls: property %s holds on this case\n", f.Key, f.Seq-1, ck.ID)
+		return 0
+	}
 	ctx := &core.Ctx{ID: ck.ID, Tier: "replay", Shard: 0, NShards: 1, R: core.NewReport()}
 	if f.NeedHistory {
+		// the replay is the whole call sequence; the violation may show on any call of it (which
+		// call of a colliding pair goes wrong depends on which came first in the process)
 		for i := range f.History {
 			h := f.History[i]
 			checks.Exec(ctx, &h)
 		}
-		ctx.R = core.NewReport() // only the verdict on the final case counts
 	}
 	cs := f.Case
 	checks.Exec(ctx, &cs)
